@@ -7,7 +7,8 @@ sys.path.insert(0, os.path.dirname(os.path.abspath(__file__)))
 import bcheck
 VERIF = bcheck.VERIF
 ALL = [f"C{i:02d}" for i in range(1, 21)]
-jobs = [(k, d) for k in ('seeded', 'benign') for d in sorted(os.listdir(os.path.join(VERIF, k)))]
+# optional arguments: substrings a directory name must contain (e.g. `-r8-`), to refresh a subset only
+jobs = [(k, d) for k in ('seeded', 'benign') for d in sorted(os.listdir(os.path.join(VERIF, k))) if not sys.argv[1:] or any(a in d for a in sys.argv[1:])]
 def one(j):
     kind, d = j
     return j, bcheck.run(os.path.join(VERIF, kind, d), ALL)
